@@ -899,6 +899,21 @@ impl Event {
         }
     }
 
+    /// A copy for another session: containers in the payload are copied element by element, the two
+    /// sessions must not share (and lock) the same values.
+    pub fn get_deep_copy(&self) -> Box<Event> {
+        let mut copy = self.get_copy();
+        if let Some(params) = &mut copy.param_values {
+            for pair in params.iter_mut() {
+                pair.value = pair.value.deep_clone();
+            }
+        }
+        if let Some(content) = &copy.content {
+            copy.content = Some(content.deep_clone());
+        }
+        copy
+    }
+
     pub fn get_copy(&self) -> Box<Event> {
         Box::new(Event {
             invoke_id: self.invoke_id.clone(),
@@ -1775,7 +1790,8 @@ impl Fsm {
                         // TODO: Clarify, communication error?
                     }
                     Some(session) => {
-                        match session.sender.send(externalEvent.clone()) {
+                        // (a deep copy: parent and child evaluate the payload concurrently)
+                        match session.sender.send(externalEvent.get_deep_copy()) {
                             Ok(_) => {}
                             Err(_) => {
                                 // TODO: Clarify, communication error?
